@@ -25,6 +25,9 @@ type V struct {
 	Key  string `json:"key"`
 	What string `json:"what"`
 	Case any    `json:"case"`
+	// NoConfirm skips the 5x replay confirmation (race-detector reports: the
+	// detector has no false positives but a race need not show on every run).
+	NoConfirm bool `json:"no_confirm,omitempty"`
 }
 
 type Run struct {
@@ -154,6 +157,19 @@ func (r *Run) MaybeReplay() {
 	os.Exit(1)
 }
 
+// ViolationV records a violation given as a V (keeps NoConfirm).
+func (r *Run) ViolationV(v V) {
+	r.Violation(v.Key, v.What, v.Case)
+	if v.NoConfirm {
+		r.mu.Lock()
+		if x, ok := r.viol[v.Key]; ok {
+			x.NoConfirm = true
+			r.viol[v.Key] = x
+		}
+		r.mu.Unlock()
+	}
+}
+
 // Violation records a violation (first one per key wins). Safe for concurrent use.
 func (r *Run) Violation(key, what string, c any) {
 	r.mu.Lock()
@@ -192,7 +208,7 @@ func (r *Run) Violation(key, what string, c any) {
 		r.perClass[class]--
 	}
 	r.perClass[class]++
-	r.viol[key] = V{key, what, c}
+	r.viol[key] = V{Key: key, What: what, Case: c}
 	r.order = append(r.order, key)
 }
 
@@ -285,7 +301,7 @@ func (r *Run) Finish() {
 	// 5x confirmation of each unlisted violation through the replayer.
 	var confirmed []V
 	for _, v := range unlisted {
-		if r.Replayer != nil {
+		if r.Replayer != nil && !v.NoConfirm {
 			raw, err := json.Marshal(v.Case)
 			if err != nil {
 				Harness("marshal case: %v", err)
@@ -403,3 +419,5 @@ func Harness(format string, args ...any) {
 
 // Q quotes bytes for keys and messages.
 func Q(b []byte) string { return strconv.Quote(string(b)) }
+
+func sinceSeconds(r *Run) float64 { return time.Since(r.start).Seconds() }
